@@ -69,6 +69,13 @@ def step (st : MqttRecv.RState) (toks : List String) : MqttRecv.RState × List S
       | .needMore => (st, ["UNPACK 0"])
       | .err e => (st, [s!"UNPACK {errCode e}"])
       | .publish p => (st, [s!"UNPACK {p.consumed} PUBLISH qos={p.qos} dup={p.dup} ret={p.retain} pid={p.pid} topic={p.topicOff}+{p.topicLen} payload={p.payloadOff}+{p.payloadLen}"])
+  | ["packhdr", ty, fl, rem] =>
+    match ty.toNat?, fl.toNat?, rem.toNat? with
+    | some t, some f, some r =>
+      match packHeader t f r with
+      | none => (st, ["PACKHDR ERR"])
+      | some h => (st, [s!"PACKHDR {h.length} {hexOrDash h}"])
+    | _, _, _ => (st, ["BADOP"])
   | ["val", u, v, p] =>
     match v.toNat?, p.toNat? with
     | some n, some pr => (st, [s!"VAL {prepareVal (u == "1") (n % 2 ^ 64) pr}"])
